@@ -515,23 +515,27 @@ impl ClusterHandler for GenCommHandler<'_> {
                 let pase_sess_id =
                     matches!(sess.get_session_mode(), SessionMode::Pase { .. }).then(|| sess.id());
 
-                let fabric = state
+                // Persist the fabric and the network settings first, while the fail-safe is
+                // still armed: if that fails, the other party gets an error and everything
+                // is rolled back together when the fail-safe expires
+                if let SessionMode::Case { fab_idx, .. } = sess.get_session_mode() {
+                    persist.store(state.fabrics.fabric(*fab_idx)?)?;
+                    ctx.networks().access(|networks| {
+                        networks.set_managed(true)?;
+
+                        persist
+                            .persist_mut()
+                            .store(NETWORKS_KEY, |buf| networks.save(buf))
+                    })?;
+                }
+
+                state
                     .failsafe
                     .disarm(sess.get_session_mode(), &mut state.fabrics)?;
 
                 state.pase.close_comm_window(notify_mdns, notify_change)?;
                 state.sessions.remove_pase(pase_sess_id);
                 ctx.exchange().matter().transport().notify_session_removed();
-
-                // Finally, persist the fabric and the network settings, prior to sending the other party a "success" status
-                persist.store(fabric)?;
-                ctx.networks().access(|networks| {
-                    networks.set_managed(true)?;
-
-                    persist
-                        .persist_mut()
-                        .store(NETWORKS_KEY, |buf| networks.save(buf))
-                })?;
 
                 info!("Commissioning complete, fabric and network settings persisted");
 
